@@ -264,6 +264,10 @@ pub fn run_case(case: &Case) -> Outcome {
                             if failed.is_empty() {
                                 if let Some(m) = mm {
                                     out.violation = Some((Class::RoundTrip, format!("deserializing the output presented as {p:?} does not restore the number: {m}")));
+                                } else if let Some((asked, written)) = s.name_mismatch.first() {
+                                    out.violation = Some((Class::RoundTrip, format!("the number is written with serialize_struct({written:?}, ..) and read with deserialize_struct({asked:?}, ..): a format that stores the struct's name (RON, XML element tags) cannot read its own output")));
+                                } else if let Some(name) = s.undrained.first() {
+                                    out.violation = Some((Class::RoundTrip, format!("the visitor of {name} returned without asking the map for its end: a streaming format that consumes its end marker in that last next_key (CBOR indefinite-length maps) leaves the marker unread and the enclosing value misreads it (presentation {p:?})")));
                                 }
                             } else if let Some(m) = mm {
                                 out.violation = Some((Class::WrongData, format!(
@@ -1193,7 +1197,7 @@ The thorough tier adds EVERY pair of rejected serializer calls for histories of 
             "determinism_check": { "values": det_values, "cases": d1.cases, "thread_partitions": [threads, 3], "digest_equal": deterministic, "digest": format!("{:016x}", d1.digest) },
             "real_components": ["the expansions of #[derive(Serialize, Deserialize)] on Dual, Dual2, Dual3, HyperDual, HyperHyperDual inside num-dual (skipped marker, recursion through nested parts)", "serde's f32/f64/PhantomData impls and MapAccess/SeqAccess/identifier plumbing", "serde_json (end-to-end tier only)"],
             "stubbed_components": ["the data format: Serializer (ser.rs) and Deserializer (de.rs) under the simulator's presentations and fault plans", "io::Write behind serde_json::to_writer"],
-            "invariants": ["J1 stored form: exactly the documented part names, each once, stored bits, nothing else; the field count announced to serialize_struct equals the fields written", "J2 round trip under every legal presentation, also through deserialize_in_place into an existing number", "J3 a rejected serializer call implies Err", "J4 a failed struct/value/element delivery implies Err; Ok after a failed key probe only with the stored number", "J5 no spurious error or panic", "J6 serde_json end to end (values the path represents exactly), key set of the JSON text"],
+            "invariants": ["J1 stored form: exactly the documented part names, each once, stored bits, nothing else; the field count announced to serialize_struct equals the fields written", "J2 round trip under every legal presentation, also through deserialize_in_place into an existing number; the visitor drains the map; the struct name asked for is the name written", "J3 a rejected serializer call implies Err", "J4 a failed struct/value/element delivery implies Err; Ok after a failed key probe only with the stored number", "J5 no spurious error or panic", "J6 serde_json end to end (values the path represents exactly), key set of the JSON text"],
             "known_findings_hit": known_hits,
             "unlisted_finding_keys": unknown_keys,
             "exhaustive": false
